@@ -686,7 +686,7 @@ def _check_pp(R, RA, g, gs, b, f, pp, pdesc, unit, role, depth, pnames):
                 found = fnd_
             # an endpoint may equal its bound (an insertion after the last line, an empty window / rectangle, a shift by the
             # whole extent): a strict comparison of the bare value with the bare bound rejects that valid call
-            if role == "endpoint" and opn == "Lt" and strip(mine)[0] != "bin" and so[0] != "bin" and g.param_path(mine) is not None:
+            if role == "endpoint" and opn == "Lt" and strip(mine)[0] != "bin" and so[0] != "bin":
                 overstrict.append(show(("bin", op, lo, ro), pnames))
             elif role == "endpoint" and opn == "Le" and strip(mine)[0] != "bin" and so[0] != "bin":
                 nonstrict_seen.append(1)
